@@ -912,6 +912,9 @@ def _is_one(x):
     return _conc_num(x) and x == 1
 
 
+_IMZERO = {}
+
+
 class SC:
     __slots__ = ('re', 'im')
 
@@ -975,7 +978,13 @@ class SC:
             return True
         if self.im.is_conc:
             return False
-        return z3.simplify(self.im.z, som=True).eq(z3.RealVal(0))
+        if z3.simplify(self.im.z, som=True).eq(z3.RealVal(0)):
+            return True
+        k = self.im.z.get_id()
+        if k not in _IMZERO:
+            r, _ = solve(self.im.z != 0, timeout_ms=3000)
+            _IMZERO[k] = (self.im.z, r == 'unsat')
+        return _IMZERO[k][1]
 
     def __abs__(self):
         if self._im_zero():
